@@ -316,6 +316,42 @@ class Case:
         except Exception:
             self.coincident = None
 
+    def coincident_referent(self, obj, n, c):
+        """an object of the nested field's class in ANOTHER buffer whose first reference field denotes a referent lying at exactly the
+        offset at which the duplicate of that referent will be allocated in the container's buffer when the object is assigned"""
+        self.coincident = None
+        try:
+            refs = [(rn, rc) for rn, rk, rc in self.U.spec[c][0] if rk == "R"]
+            bi = self.bidx(obj._xobject._buffer)
+            if not refs or bi > 1:
+                return
+            own, other = self.bufs[bi], self.bufs[1 - bi]
+            if len(own.chunks) != 1 or len(other.chunks) != 1:
+                return
+            x = int(own.chunks[0].start)
+            if other.chunks[0].start > x or other.chunks[0].end < x + 1024:
+                return
+            if x > other.chunks[0].start:
+                npad = x - other.chunks[0].start
+                other.allocate(npad)
+                self.ops.append(f"pad {1 - bi} {npad}")
+                self.exp.append(None)
+            rn, rc = refs[0]
+            before = len(self.ops)
+            self.op_new(ci=rc, bi=1 - bi, given={})
+            if len(self.ops) == before or not self.exp[-1].startswith("inst"):
+                return
+            referent = f"H{self.nh}"
+            if int(self.handles[referent]._xobject._offset) != x:
+                return
+            before = len(self.ops)
+            self.op_new(ci=c, bi=1 - bi, given=dict({q: None for q, _ in refs[1:]}, **{rn: referent}))
+            if len(self.ops) > before and self.exp[-1].startswith("inst") and int(own.chunks[0].start) == x:
+                self.coincident = f"H{self.nh}"
+                self.tags["set.N.referent-at-the-offset-of-its-future-duplicate"] += 1
+        except Exception:
+            self.coincident = None
+
     def op_set(self, target=None, source=None):
         cands = self.insts()
         if not cands:
@@ -333,6 +369,8 @@ class Case:
         else:
             if k == "N" and r.random() < 0.3:
                 self.coincident_source(obj, n, c)
+            elif k == "N" and r.random() < 0.4:
+                self.coincident_referent(obj, n, c)
             srcs = self.insts(c)
             if k == "N" and self.coincident is not None and r.random() < 0.8:
                 srcs = [(self.coincident, self.handles[self.coincident])]
@@ -347,6 +385,7 @@ class Case:
         self.ops.append(f"set {hn} {py} {word}")
         self.last_target = obj
         self.last_field = py
+        imgs = [(b_.capacity, bytes(b_.to_bytearray(0, b_.capacity))) for b_ in self.bufs]
         try:
             setattr(obj, py, val)
             self.exp.append("ok")
@@ -374,6 +413,12 @@ class Case:
         except MemoryError:
             self.exp.append("err Memory")
             self.tags[f"set.{k}.err-memory"] += 1
+            # a refused assignment (a reference to an object of another buffer) leaves everything as it was
+            now = [(b_.capacity, bytes(b_.to_bytearray(0, b_.capacity))) for b_ in self.bufs]
+            if now != imgs:
+                bad = [i for i, (a_, b_) in enumerate(zip(imgs, now)) if a_ != b_]
+                self.fail("C18:refused-assignment-changed-memory", f"{hn}.{py} = {word} was refused (MemoryError) but buffer(s) {bad} changed "
+                          f"(capacity {[imgs[i][0] for i in bad]} -> {[now[i][0] for i in bad]})")
         except Exception as ex:
             self.exp.append("err " + type(ex).__name__)
             self.fail("C18:set-raises:" + type(ex).__name__, f"{hn}.{py} = {word}: {str(ex)[:160]}")
@@ -953,6 +998,30 @@ def corpus_history4(r, fails, tags):
     return c
 
 
+def corpus_history5(r, fails, tags):
+    """an object holding a reference is assigned to a nested field of a container in another buffer; the duplicate of its referent
+    lands at the very offset the referent has in its own buffer: the attribute must dress the duplicate, writes must reach it"""
+    c = Case(r, fails, tags, force={"k1": "R", "k1b": None, "k2": "N", "k3": "R"})
+    c.op_new(ci=2, bi=0, given={"leaf": None})
+    if "H1" in c.handles and c.check_mirror(c.ops[-1]):
+        c.coincident_referent(c.handles["H1"], "mid", 1)
+        src = c.coincident
+        c.coincident = None
+        if src is not None:
+            for name, kw in [("op_set", dict(target=("H1", "mid"), source=src)), ("op_get", dict(target=("H1", "mid"))),
+                             ("op_get", dict(target=(f"H{c.nh + 1}", "leaf"))), ("op_py", {}), ("op_get", dict(target=(src, "leaf")))]:
+                before = len(c.ops)
+                c.last_target = None
+                c.last_field = None
+                try:
+                    getattr(c, name)(**kw)
+                except KeyError:
+                    break
+                if len(c.ops) > before and not c.check_mirror(c.ops[-1]):
+                    break
+    return c
+
+
 def run_history(r, fails, tags, n_ops):
     c = Case(r, fails, tags)
     c.op_new(0)
@@ -975,7 +1044,7 @@ def run_all(tier, seed, extra=None):
     n_hist = {"quick": 40, "thorough": 6000}[tier]
     cases, expects, ctxs = [], [], []
     for hi in range(n_hist):
-        c = corpus_history(r, fails, tags) if hi == 0 else corpus_history2(r, fails, tags) if hi == 1 else corpus_history3(r, fails, tags) if hi == 2 else corpus_history4(r, fails, tags) if hi == 3 else run_history(r, fails, tags, r.choice([8, 14, 24]))
+        c = corpus_history(r, fails, tags) if hi == 0 else corpus_history2(r, fails, tags) if hi == 1 else corpus_history3(r, fails, tags) if hi == 2 else corpus_history4(r, fails, tags) if hi == 3 else corpus_history5(r, fails, tags) if hi == 4 else run_history(r, fails, tags, r.choice([8, 14, 24]))
         if extra:
             extra(c, r)
         cases.append(c.ops)
